@@ -326,3 +326,50 @@ Example C12_cache_needs_invalidation :
      = [ObsStore (Ok tt); ObsLoad (LOk sA); ObsStore (Ok tt); ObsLoad (LOk sB)].
 Proof. vm_compute. split; reflexivity. Qed.
 Print Assumptions C12_cache_needs_invalidation.
+
+(* ---- restart, through the client's transition system -----------------------------------------------
+   The full statement of the property's last clause, composed from the decision above and the client of
+   Client/Live.v (C16_key_exchange_once): store a session; start a client on that store; then in EVERY
+   history of that client - any calls, any server traffic, any number of closed connections and
+   reconnects - no key exchange runs and no unencrypted frame is written, and the client is keyed
+   throughout.  On a store that holds nothing the first thing that can happen is the key exchange.
+   [live_config cl]: the configuration the transition system starts in for the MTProto value [cl]
+   NewMTProto built (m.encrypted decides whether CreateConnection runs makeAuthKey).
+   The salt VALUE is relative in Client/Live.v (it starts the history as 0 and is followed from there), so
+   that the restored salt is the one on the wire is stated by C12_resume_partial / Props/C12m.v and
+   observed live (harness e2e resume), not here. *)
+From MTV Require Import Client.Model Client.Live Client.LiveInv Client.Alive.
+
+Definition live_config (cl : client) : config :=
+  {| cf_warn := WNil; cf_handler := false; cf_keyed := c_encrypted cl |}.
+
+Theorem C12_resume_in_every_history :
+  forall b64enc b64dec marshal unmarshal, base64_ok b64enc b64dec -> json_ok marshal unmarshal ->
+  forall (fs : fsys) (l : loader) (s : session) (t : N) (host : bytes),
+    l_path l <> [] -> dirs fs (go_dir (l_path l)) = DDir -> session_ok s = true ->
+    exists cl,
+      Session.run b64enc b64dec marshal unmarshal fs l [OStore s t; OClient host] = [ObsStore (Ok tt); ObsClient (Ok cl)] /\
+      cl = mkClient true (s_key s) (s_hash s) (s_salt s) (s_host s) /\
+      forall ls st, run2 (init2 (live_config cl)) ls = Some st ->
+        keyed st = true /\ keyex st = O /\ plain_out st = O.
+Proof.
+  intros b64enc b64dec marshal unmarshal HB HJ fs l s t host HP HD HS.
+  destruct (C12_resume_partial b64enc b64dec marshal unmarshal HB HJ) as [R _].
+  exists (mkClient true (s_key s) (s_hash s) (s_salt s) (s_host s)).
+  split; [exact (R fs l s t host HP HD HS)|]. split; [reflexivity|].
+  intros ls st H. destruct (keyex_once _ ls st H) as (P & _ & K & _).
+  destruct (K eq_refl) as [K0 K1]. split; [exact K1|]. split; [exact K0|].
+  rewrite P, K0. reflexivity.
+Qed.
+Print Assumptions C12_resume_in_every_history.
+
+(* ... and the client started on an empty store is not keyed: nothing but the key exchange is enabled *)
+Theorem C12_fresh_client_exchanges_keys_first : forall host l st,
+  step2 (init2 (live_config (mkClient false [] [] 0%Z host))) l = Some st ->
+  exists x, l = LKeyEx x /\ keyed st = true /\ keyex st = 1%nat.
+Proof.
+  intros host l st H. unfold step2, step2i in H. cbn [keyed init2 live_config cf_keyed c_encrypted] in H.
+  destruct l as [l1| |x]; cbn in H; try discriminate.
+  exists x. injection H as <-. split; [reflexivity|]. split; reflexivity.
+Qed.
+Print Assumptions C12_fresh_client_exchanges_keys_first.
